@@ -20,7 +20,7 @@ META = {
                  '.ff files assembled from <= 3 top-level sections chosen by symbolic selectors out of 7 snippets (block, 2 links, '
                  'modification, macros-using link, citations, variables) with an optional injected fault; .itp files with 2 '
                  'molecule types of symbolic atom counts (1..3) whose interactions refer to atoms by symbolic index',
-        'thorough': 'tokenizer length <= 6; .ff files of <= 5 sections',
+        'thorough': 'tokenizer length <= 6; .ff files of <= 4 sections',
     },
     'stubs': ['ffinput LOGGER untouched (no symbolic value is ever logged)'],
     'assumptions': ['attribute tokens go through json.loads (C boundary) and are concrete snippets',
@@ -412,7 +412,7 @@ def cases(tier):
             for mode in ('attr', 'both'):
                 out.append({'fn': 'check_prefix', 'part': {'kind': kind, 'n': n, 'mode': mode}, 'label': 'prefix[%s x%d %s]' % (kind, n, mode),
                             'timeout': 300, 'path_timeout': 30, 'twin': kind == '+' and n == 1})
-    maxcount = 3 if tier == 'quick' else 5
+    maxcount = 3 if tier == 'quick' else 4
     for count in range(0, maxcount + 1):
         firsts = [None] if count < 3 else list(range(len(ORDERABLE)))
         for first in firsts:
